@@ -9,7 +9,12 @@
 // identifier position (idents.go, idents_alphabet.go), (o) the statements Acra's
 // observers rewrite - searchable comparisons, tokenized comparisons, INSERT/UPDATE literals of
 // protected columns - over statement kind x left side x operator x right side x context
-// (obs_*.go, observers.go), (b) every derivation of a compact DML grammar up to a depth, (c)
+// (obs_*.go, observers.go), including statements that touch several configured columns with
+// different settings at once - an UPDATE that assigns literals to protected columns (encrypted,
+// tokenized, one of every class) and compares a column of any class in WHERE, operands as written
+// and exchanged - so that the whole chain in its production order (tokenizer, search hash, query
+// encryptor) works on one statement and what one observer did to a comparison it then left
+// alone is seen in the text a later observer sends, (b) every derivation of a compact DML grammar up to a depth, (c)
 // every expression sub-tree of every seed spliced into every expression slot of every seed,
 // (d) every literal of every seed replaced the way the MySQL query encryptor replaces values,
 // with each member of a byte-string menu.
@@ -123,7 +128,8 @@ func main() {
 		"the meaning of a statement is its sqlparser tree: two texts mean the same iff the strict parser of the same dialect builds structurally equal trees (a literal the parser itself decodes differently from the database, e.g. MySQL '\\%' or PostgreSQL standard_conforming_strings, is outside this model)",
 		"PostgreSQL value substitution goes through pg_query (encryptor/postgresql): phase (d) exercises only the sqlparser path (MySQL encryptors); the PostgreSQL observers are exercised by phase (o), whose oracle works on pg_query's own parse trees (ParseToJSON, positions removed). Nothing the PostgreSQL proxy sends to the database is printed by sqlparser: the postgresql worker's phases a, i, b, c concern the parser/printer pair used by AcraCensor and the logs",
 		"observers phase: the observer chain is the one decryptor/mysql|postgresql proxyFactory.New builds (taken from the proxy object by reflection); OnQuery is called as the proxies call it (object made from the query text; on an error or changed=false the received text is what goes to the database - nothing is re-serialised, nothing to check); prepared-statement protocol paths (OnBind, MySQL PREPARE ... FROM '<text>') are not driven here",
-		"observers oracle: the substitutions listed in obs_my.go / obs_pg.go are undone in the tree of the sent text only at the sites the statement's generator marked (from the configuration it wrote itself) and only in the documented form; then the trees must be equal. The property leaves open which comparisons get the search-hash form: two searchable columns under an operator outside the =/<> families (t1.s < t2.s) may both be wrapped in substr(x, 1, 33) when the operator stays; substr(<searchable column>, 1, 33) written by the client counts as the column; the literal of a comparison with any protected column may change its value",
+		"observers oracle: the substitutions listed in obs_my.go / obs_pg.go are undone in the tree of the sent text only at the sites the statement's generator marked (from the configuration it wrote itself) and only in the documented form; then the trees must be equal. The property leaves open which comparisons get the search-hash form: two searchable columns under an operator outside the =/<> families (t1.s < t2.s) may both be wrapped in substr(x, 1, 33) when the operator stays; substr(<searchable column>, 1, 33) written by the client counts as the column; the literal of a comparison with any protected column may change its value; `_binary '<literal>'` compared with a protected column may lose the introducer only together with a substitution of the value (sent literal differs in type or bytes from the received one) - the same literal sent without the introducer is reported (binary-introducer-lost-value-not-substituted); a value and a column may change sides under =, !=, <=> whatever the kind of the literal (float included)",
+		"observers phase, several configured columns in one statement: the statements that make a later observer re-serialise a comparison an earlier one looked at are UPDATE SET <protected column> = '<string literal>' ... WHERE <comparison>; INSERT ... SELECT ... WHERE and multi-table UPDATE with assigned protected columns are not combined with the comparison space; a PostgreSQL statement whose substituted constant makes the sent text unparsable or turns the constant into another node is reported under one key per (column family, spelling of the constant) whatever the statement kind and operator (the resulting text depends on the random token)",
 		"whether a substituted literal opens to the received value for the column's readers (the values themselves) is C04/C09/C10/C11's subject and is not repeated here; an ON CONFLICT / ON DUPLICATE KEY assignment the observers leave in clear is not a C13 matter",
 		"identifier phase, database's reading of names (MySQL dialects): an unquoted name is read over [0-9a-zA-Z$_] and bytes >= 0x80 (MySQL reference manual, Schema Object Names); a quoted identifier of the received text made of these only (no leading digit) may be sent without quotes, any other must keep quotes (which quote character is the printer's choice). In PostgreSQL the AST keeps the quotes of identifiers; where it does not (collation name) a name of lower-case letters, digits and underscore (no leading digit) may be sent bare. A round-trip failure of a statement whose sent text already holds a name outside its quotes is reported under the class of that name (…/with-identifier-printed-bare:<character>/<leading|inner>), not under the node where the trees part",
 		"forwarded text of full proxy sessions (C04) is not re-checked here")
